@@ -1078,3 +1078,67 @@ _add(
         tags=("kern",),
     )
 )
+
+
+# ---- element zoo (fourth round): element kinds the first pool did not have --------------------
+def _zoo(name, stmts, tags=("kern", "zoo2")):
+    return _add(Request(name, "forms", [_mesh("triangle")] + stmts + ["objs = [a]"], tags=tags))
+
+
+_zoo("real_coefficient_tri", [
+    'R = ufl.FunctionSpace(mesh, basix.ufl.real_element("triangle", ()))',
+    'V = ufl.FunctionSpace(mesh, basix.ufl.element("Lagrange", "triangle", 1))',
+    "r = ufl.Coefficient(R)", "u = ufl.TrialFunction(V)", "v = ufl.TestFunction(V)",
+    "a = r * u * v * ufl.dx"])
+_zoo("real_test_function_tri", [
+    'R = ufl.FunctionSpace(mesh, basix.ufl.real_element("triangle", ()))',
+    'V = ufl.FunctionSpace(mesh, basix.ufl.element("Lagrange", "triangle", 1))',
+    "u = ufl.TrialFunction(V)", "c = ufl.TestFunction(R)", "a = u * c * ufl.dx"])
+_zoo("enriched_p1_bubble_tri", [
+    'P1 = basix.ufl.element("Lagrange", "triangle", 1)', 'B = basix.ufl.element("Bubble", "triangle", 3)',
+    "V = ufl.FunctionSpace(mesh, basix.ufl.enriched_element([P1, B]))",
+    "u = ufl.TrialFunction(V)", "v = ufl.TestFunction(V)",
+    "a = ufl.inner(ufl.grad(u), ufl.grad(v)) * ufl.dx"])
+_zoo("symmetric_tensor_p1_tri", [
+    'S = basix.ufl.element("Lagrange", "triangle", 1, shape=(2, 2), symmetry=True)',
+    "V = ufl.FunctionSpace(mesh, S)", "u = ufl.TrialFunction(V)", "v = ufl.TestFunction(V)",
+    "f = ufl.Coefficient(V)", "a = ufl.inner(u, v) * ufl.dx + f[0, 1] * ufl.inner(u, v) * ufl.ds"])
+_zoo("regge_tri", [
+    'V = ufl.FunctionSpace(mesh, basix.ufl.element("Regge", "triangle", 1))',
+    "u = ufl.TrialFunction(V)", "v = ufl.TestFunction(V)", "a = ufl.inner(u, v) * ufl.dx"])
+_zoo("hhj_tri", [
+    'V = ufl.FunctionSpace(mesh, basix.ufl.element("HHJ", "triangle", 1))',
+    "u = ufl.TrialFunction(V)", "v = ufl.TestFunction(V)", "a = ufl.inner(u, v) * ufl.dx"])
+_zoo("crouzeix_raviart_tri", [
+    'V = ufl.FunctionSpace(mesh, basix.ufl.element("CR", "triangle", 1))',
+    "u = ufl.TrialFunction(V)", "v = ufl.TestFunction(V)",
+    "a = ufl.inner(ufl.grad(u), ufl.grad(v)) * ufl.dx"])
+_zoo("dg0_coefficient_tri", [
+    'V0 = ufl.FunctionSpace(mesh, basix.ufl.element("DG", "triangle", 0))',
+    'V = ufl.FunctionSpace(mesh, basix.ufl.element("Lagrange", "triangle", 2))',
+    "k = ufl.Coefficient(V0)", "u = ufl.TrialFunction(V)", "v = ufl.TestFunction(V)",
+    "a = k * ufl.inner(ufl.grad(u), ufl.grad(v)) * ufl.dx + k('+') * ufl.jump(u) * ufl.jump(v) * ufl.dS"],
+    tags=("kern", "zoo2", "facet", "interior"))
+_zoo("quadrature_element_degree_tri", [
+    'Q = ufl.FunctionSpace(mesh, basix.ufl.quadrature_element("triangle", degree=2))',
+    'V = ufl.FunctionSpace(mesh, basix.ufl.element("Lagrange", "triangle", 1))',
+    "q = ufl.Coefficient(Q)", "v = ufl.TestFunction(V)",
+    'a = q * v * ufl.dx(metadata={"quadrature_degree": 2})'], tags=("kern", "zoo2", "npstr"))
+_zoo("vertex_scheme_tri", [
+    'V = ufl.FunctionSpace(mesh, basix.ufl.element("Lagrange", "triangle", 1))',
+    "u = ufl.TrialFunction(V)", "v = ufl.TestFunction(V)",
+    'a = u * v * ufl.dx(metadata={"quadrature_rule": "vertex", "quadrature_degree": 1})'])
+_add(
+    Request(
+        "rt_tet_with_interior_facets",
+        "forms",
+        [
+            _mesh("tetrahedron"),
+            'V = ufl.FunctionSpace(mesh, basix.ufl.element("RT", "tetrahedron", 1))',
+            "u = ufl.TrialFunction(V)", "v = ufl.TestFunction(V)",
+            "a = (ufl.inner(u, v) + ufl.div(u) * ufl.div(v)) * ufl.dx + ufl.inner(u('+'), v('-')) * ufl.dS",
+            "objs = [a]",
+        ],
+        tags=("kern", "zoo2", "facet", "interior", "slow"),
+    )
+)
